@@ -112,9 +112,16 @@ def install(lw):
                                mechanism="mapping_amplitude_accepted:" + name)
                 return res
             before_items = ([(i, dict(self[i])) for i in self.inputs] if is_sim else dict(self))
+            before_arr = np.array(self.array, copy=True) if is_sim else None
+            before_lists = (list(self.inputs), list(self.outputs)) if is_sim else None
             res = orig(self, invert)
             try:
                 after_items = ([(i, dict(self[i])) for i in self.inputs] if is_sim else dict(self))
+                if is_sim and (not np.array_equal(before_arr, self.array, equal_nan=True)
+                               or before_lists != (list(self.inputs), list(self.outputs))):
+                    circmon.report("C17", f"{name} changed the array / state lists of the result it was applied to "
+                                          f"(its array no longer matches its indexed values)",
+                                   monitor=name + " post-condition", mechanism="mapping_changed_original_array:" + name)
                 if repr(after_items) != repr(before_items):
                     circmon.report("C17", f"{name} changed the result it was applied to", monitor=name + " post-condition",
                                    mechanism="mapping_changed_original:" + name)
